@@ -7,8 +7,10 @@
   independently of the code's control flow.
 -/
 import PonyVerif.Model.Validate
+import PonyVerif.Gen.IntBounds
+import PonyVerif.Py.Lemmas
 namespace PonyVerif.Props.C08
-open PonyVerif.Model.Validate
+open PonyVerif.Model.Validate PonyVerif.Py PonyVerif
 
 /-! ### what an int declaration declares -/
 
@@ -113,6 +115,100 @@ theorem C08_int_idem (parse : List Char → Option Int) (c : IntConv) (v r : Val
     cases v <;> simp [intResult]
   simp only [hri, hrr]
   cases h1 : ltOpt i c.minVal <;> cases h2 : gtOpt i c.maxVal <;> simp [h1, h2] at h ⊢
+
+/-! ### bridges to the code regenerated from IntConverter.init / validate on every run (Gen/IntBounds.lean) -/
+
+def encOI : Option Int → PyVal
+  | none => .none
+  | some i => .int i
+def encOB : Option Bool → PyVal
+  | none => .none
+  | some b => .bool b
+
+/-- `IntConverter.init` after the legality checks of `size` (the part regenerated from the source) -/
+def intInitTailT (o : IntOpts) : Except String IntConv :=
+  let uns : Bool := o.unsigned == some true
+  let size : Option Int := if o.unsigned.isSome && o.size.isNone then some 32 else o.size
+  let lowest := lowestOf size uns
+  let highest := highestOf size uns
+  if (match highest, o.max with | some h, some m => decide (m > h) | _, _ => false) then .error (boundErr o.unsigned) else
+  if (match lowest, o.min with | some l, some m => decide (m < l) | _, _ => false) then .error (boundErr o.unsigned) else
+  .ok { minVal := match o.min with | Option.none => lowest | some m => some m,
+        maxVal := match o.max with | Option.none => highest | some m => some m,
+        size := size, unsigned := o.unsigned }
+
+theorem intInit_eq_tail (u : Bool) (o : IntOpts) :
+    intInit u o = if (match o.size with | some s => !sizeOk s | Option.none => false) then .error "TypeError" else
+                  if o.size == some 64 && (o.unsigned == some true) && !u then .error "TypeError" else intInitTailT o := rfl
+
+def encConv (c : IntConv) : PyVal := .list [encOI c.minVal, encOI c.maxVal, encOI c.size, encOB c.unsigned]
+
+/-- the Python-side reading of the model's outcome (the exception text is not translated: only "raises ValueError") -/
+def encRes : Except String IntConv → PyM PyVal
+  | .ok c => .ok (encConv c)
+  | .error _ => .error (.raised "ValueError" "")
+
+theorem encRes_ite (c : Prop) [Decidable c] (a b : Except String IntConv) :
+    encRes (if c then a else b) = if c then encRes a else encRes b := by
+  split <;> rfl
+
+/-- **bridge (regenerated every run)**: the tail of `IntConverter.init` taken from the source — default size, lowest/highest,
+    the two range tests of the declared bounds, min_val/max_val — computes the hand model, for every legal size, every
+    `unsigned` (False/True/None) and all integer or absent min/max -/
+theorem C08_bridge_int_init_tail (o : IntOpts) (hs : ∀ s, o.size = some s → sizeOk s = true) :
+    Gen.intInitTail (encOI o.size) (encOB o.unsigned) (encOI o.min) (encOI o.max) = encRes (intInitTailT o) := by
+  obtain ⟨size, uns, mn, mx⟩ := o
+  rcases size with _ | s
+  · rcases uns with _ | _ | _ <;> rcases mn with _ | mn <;> rcases mx with _ | mx <;>
+      simp [Gen.intInitTail, intInitTailT, encOI, encOB, encConv, encRes, lowestOf, highestOf, PyVal.pow, PyVal.asInt?, bind, Except.bind, pure, Except.pure, throw, throwThe, MonadExceptOf.throw] <;>
+      (try (split <;> (try simp_all) <;> (try (split <;> simp_all)) <;> (try omega)))
+  · rcases sizeOk_cases (hs s rfl) with rfl | rfl | rfl | rfl | rfl <;>
+    rcases uns with _ | _ | _ <;> rcases mn with _ | mn <;> rcases mx with _ | mx <;>
+      simp [Gen.intInitTail, intInitTailT, encOI, encOB, encConv, encRes, lowestOf, highestOf, PyVal.pow, PyVal.asInt?, bind, Except.bind, pure, Except.pure, throw, throwThe, MonadExceptOf.throw] <;>
+      (try (split <;> (try simp_all) <;> (try (split <;> simp_all)) <;> (try omega)))
+
+/-- **bridge (regenerated every run)**: the two bound tests of `IntConverter.validate` taken from the source are `ltOpt`/`gtOpt`,
+    for all integers and all present or absent converter bounds -/
+theorem C08_bridge_int_validate_tail (i : Int) (mn mx : Option Int) :
+    Gen.intValidateTail (.int i) (encOI mn) (encOI mx) =
+      if ltOpt i mn then .error (.raised "ValueError" "") else if gtOpt i mx then .error (.raised "ValueError" "") else .ok (.int i) := by
+  rcases mn with _ | mn <;> rcases mx with _ | mx <;>
+    simp [Gen.intValidateTail, encOI, ltOpt, gtOpt, bind, Except.bind, pure, Except.pure, throw, throwThe, MonadExceptOf.throw] <;>
+    (repeat' split) <;> (try simp_all) <;> (try omega)
+
+theorem encOI_inj {a b : Option Int} (h : encOI a = encOI b) : a = b := by
+  cases a <;> cases b <;> simp_all [encOI]
+
+/-- **the regenerated code enforces the declaration**: whatever converter fields the regenerated `init` tail computes for a
+    declaration with a legal size, the regenerated `validate` tail accepts an integer `i` with them iff `i` satisfies the
+    declared size, signedness, min and max — for all integers and all declarations.  (No hand model in the statement.) -/
+theorem C08_int_generated (o : IntOpts) (hs : ∀ s, o.size = some s → sizeOk s = true) (mn mx : Option Int) (sz un : PyVal) (i : Int)
+    (hinit : Gen.intInitTail (encOI o.size) (encOB o.unsigned) (encOI o.min) (encOI o.max) = .ok (.list [encOI mn, encOI mx, sz, un])) :
+    Gen.intValidateTail (.int i) (encOI mn) (encOI mx) = .ok (.int i) ↔ intDeclHolds o i := by
+  rw [C08_bridge_int_init_tail o hs] at hinit
+  cases ht : intInitTailT o with
+  | error e => rw [ht] at hinit; simp [encRes] at hinit
+  | ok c =>
+    rw [ht] at hinit
+    simp only [encRes, encConv, Except.ok.injEq, PyVal.list.injEq, List.cons.injEq] at hinit
+    have h1 : c.minVal = mn := encOI_inj hinit.1
+    have h2 : c.maxVal = mx := encOI_inj hinit.2.1
+    have hinit' : intInit true o = .ok c := by
+      rw [intInit_eq_tail, ht]
+      have hb : (match o.size with | some s => !sizeOk s | Option.none => false) = false := by
+        cases hsz : o.size with
+        | none => rfl
+        | some s => simp [hs s hsz]
+      simp [hb]
+    have core := C08_int_core true o c i hinit'
+    rw [h1, h2] at core
+    rw [C08_bridge_int_validate_tail, ← core]
+    cases ltOpt i mn <;> cases gtOpt i mx <;> simp
+
+example : Gen.intInitTail (.int 8) (.bool false) (.int 0) .none = .ok (.list [.int 0, .int 127, .int 8, .bool false]) := by
+  simp [Gen.intInitTail, PyVal.pow, PyVal.asInt?, bind, Except.bind, pure, Except.pure]
+example : Gen.intValidateTail (.int (-5)) (.int 0) (.int 127) = .error (.raised "ValueError" "") := by
+  simp [Gen.intValidateTail, bind, Except.bind, throw, throwThe, MonadExceptOf.throw]
 
 /-! ### float -/
 
